@@ -37,6 +37,8 @@ pub struct RunCfg {
     pub build_label: String,
     /// (stage arm id, run index) pairs not to execute: fatal runs outside this property's scope
     pub skip: Vec<(u64, u64)>,
+    /// history operation kinds excluded after one of them took the process down (C04 only)
+    pub skip_ops: Vec<u64>,
     /// print "RUN <stage arm id> <index> <point>" before every run (Miri slice: names the run in which
     /// the interpreter stopped)
     pub announce: bool,
@@ -280,7 +282,11 @@ fn plan_for_inner(stage: &Stage, seed: u64, restrict: &Restrict) -> Plan {
         StageKind::SmallValues | StageKind::ShortInputs(_) => unreachable!("indexed, not seeded"),
         StageKind::Text => gen::gen_text(seed, restrict),
         StageKind::Entropy => gen::gen_entropy(seed, restrict),
-        StageKind::History => gen::gen_history(seed, restrict),
+        StageKind::History => {
+            let mut p = gen::gen_history(seed, restrict);
+            crate::history::filter_plan(&mut p);
+            p
+        }
         StageKind::Sweep => unreachable!(),
     }
 }
@@ -677,7 +683,7 @@ fn evidence(
             "exhaustive_substages": "stages whose name starts with 'exhaustive:' enumerate a finite sub-space completely and are independent of VERIF_SEED (all values of the widths 0,1,2,3,7,8,12,13 through every arm, flavour and postgres column type; all inputs of at most 1 (quick) or 2 (thorough) bytes to every decoder at those widths); the overall check remains a seeded search, so coverage.exhaustive is not set",
             "sweep": {"records": total.sweep_records, "records_with_every_bit_flipped": total.sweep_exhaustive, "exhaustive_single_fault_per_record": "every truncation offset, every read-cut offset (ERR and EOF), every write-error offset; every single-bit flip for encodings <= 128 bytes; every value of each of the first two bytes"},
             "components": {
-                "real": ["ruint (rebuilt from /repo working tree): encoders, decoders, bytes.rs, string.rs, base_convert.rs, generators", "borsh", "parity-scale-codec", "alloy-rlp", "fastrlp 0.3/0.4", "rlp 0.5", "der", "ethereum_ssz", "serde_json", "bincode", "bytes", "postgres-types", "bytemuck", "num-bigint", "primitive-types", "ark-ff 0.3/0.4", "arbitrary", "quickcheck", "proptest", "rand 0.8/0.9 distributions"],
+                "real": ["ruint (rebuilt from /repo working tree): encoders, decoders, bytes.rs, string.rs, base_convert.rs, generators", "borsh", "parity-scale-codec", "alloy-rlp", "fastrlp 0.3/0.4", "rlp 0.5", "der", "ethereum_ssz", "serde_json", "bincode", "bytes", "postgres-types", "bytemuck", "num-bigint", "primitive-types", "ark-ff 0.3/0.4", "arbitrary", "quickcheck", "proptest", "rand 0.8/0.9 distributions", "num-traits", "num-integer", "subtle", "zeroize"],
                 "stub": ["WriteSeam/ReadSeam (io::Write/io::Read, chunking, EINTR, hard error, EOF)", "SimInput (SCALE Input: remaining_len modes, alloc budget)", "SimDerWriter (der::Writer)", "SimSerializer/SimDeserializer (serde data model)", "SimRng08/SimRng09 (RngCore)", "medium (byte log + fault applicator)", "digit iterator"],
                 "absent": ["PostgreSQL server", "network", "disk", "OS entropy (Uint::random()/randomize() hard-wire thread_rng and are not run)"]
             },
@@ -686,6 +692,7 @@ fn evidence(
             "violations": reported.iter().map(|(k, p, v, path, _)| json!({"class": k.class, "codec": p.codec, "bits": p.bits, "detail": v.detail, "replay": path})).collect::<Vec<_>>(),
             "build_profile": cfg.profile,
             "fatal_runs_skipped_outside_scope": cfg.skip.iter().map(|(s, i)| json!({"stage_arm_id": s, "run_index": i})).collect::<Vec<_>>(),
+            "history_operation_kinds_excluded_after_fatal_run": cfg.skip_ops.iter().map(|o| json!({"op": o, "name": crate::history::op_name(*o)})).collect::<Vec<_>>(),
             "feature_configuration": if cfg!(feature = "r09") { "ruint features rand + rand-09 (inherent random_with/randomize_with are the rand 0.9 ones)" } else { "ruint feature rand only (inherent random_with/randomize_with are the rand 0.8 ones)" },
             "restriction": {"codec": cfg.codec, "bits": cfg.bits},
         },
